@@ -125,6 +125,18 @@ func c19Record(tier string, seed int64, emit func(interface{})) {
 				s += tail
 			}
 		}
+		if i%10 == 7 { // 65..200 nt: the outer arms are reverse complements of each other, the middle is not
+			arm := randDNA(rng, 32+rng.Intn(20))
+			var mid string
+			for {
+				mid = randDNA(rng, 1+rng.Intn(200-2*len(arm)))
+				if mid != rcDNA(mid) {
+					break
+				}
+			}
+			s = arm + mid + rcDNA(arm)
+			m = len(s)
+		}
 		if rng.Intn(6) == 0 { // self-complementary (in mixed case)
 			h := s[:m/2]
 			s = h + mixCase(rcDNA(strings.ToUpper(h)), rng.Intn(3))
